@@ -231,6 +231,8 @@ def check_special_files():
         ('bom_semicolon_no_header', ';', False, '\ufeff2024-01-01;ALPHA;5.00\n2024-01-02;BETA;6.00\n', [('ALPHA', 5.0), ('BETA', 6.0)]),
         ('bom_regex_no_header', 'regex:^(\\S+) (\\w+) (-?[\\d.]+)$', False, '\ufeff2024-01-01 ALPHA 5.00\n2024-01-02 BETA 6.00\n', [('ALPHA', 5.0), ('BETA', 6.0)]),
     ]
+    # the two-character text backslash-t (what `delimiter: '\\t'` in single quotes gives in YAML) means tab, as the documentation says
+    cases.append(('backslash_t_delimiter', '\\t', False, '2024-01-01\tALPHA\t5.00\n2024-01-02\tBETA\t6.00\n', [('ALPHA', 5.0), ('BETA', 6.0)]))
     # a byte that is not UTF-8 in one row (a Latin-1 export): the other rows are read as if that row were not there or were read with a replacement
     # character - (expected list None: only 'BETA' is checked)
     cases.append(('invalid_utf8_byte_in_one_row', None, False, b'2024-01-01,CAF\xe9 ONE,5.00\n2024-01-02,BETA,6.00\n', None))
@@ -249,6 +251,21 @@ def check_special_files():
         except Exception as e:
             O.fail('C05.parse_generic_csv.raises', w, want, '%s: %s' % (type(e).__name__, e), 'parse_generic_csv on the file text given')
             continue
+    # a delimiter setting that is none of the documented forms is refused, not silently read as comma (every row would be dropped without a word)
+    for bad in ('||', 'tabs', '; '):
+        O.case(('special', 'unsupported_delimiter', bad))
+        with open(path, 'w', encoding='utf-8') as f:
+            f.write('2024-01-01%sALPHA%s5.00\n' % (bad, bad))
+        spec = resolve_source_format({'name': 'Bank', 'file': path, 'format': fmt, 'has_header': False, 'delimiter': bad})['_format_spec']
+        try:
+            got = parse_generic_csv(path, spec, [], source_name='Bank')
+        except ValueError:
+            continue
+        except Exception as e:
+            got = '%s: %s' % (type(e).__name__, e)
+        if got == [] or isinstance(got, str):
+            O.fail('C05.unsupported_delimiter_read_as_comma', {'fn': 'parse_generic_csv', 'special': 'unsupported_delimiter', 'delimiter': bad}, 'ValueError naming the delimiter (or the rows)', got,
+                   'resolve_source_format + parse_generic_csv with a delimiter that is not None / tab / one character / regex:...')
         if want is None:
             if ('BETA', 6.0) not in got or len(got) > 2:
                 O.fail('C05.parse_generic_csv.rows', w, "the row 'BETA' 6.00 is read whatever happens to the row with the invalid byte", got, 'parse_generic_csv on the file bytes given')
